@@ -59,7 +59,8 @@ CHECKS = {
              "forward/backward substitution of LinearSolver and LinearSolverInPlace returns x with A x = b "
              "(C04_solve_gives_Ax_eq_b, C04_solve_in_place_gives_Ax_eq_b; induction over rows); for the in-place Doolittle pair "
              "pairs (Doolittle and Mozart) the premise is discharged: factor-then-solve gives A x = b with no hypothesis on "
-             "the factors (C04_doolittle_in_place_factor_then_solve, C04_mozart_in_place_factor_then_solve). Tie: real "
+             "the factors (C04_doolittle_in_place_factor_then_solve, C04_mozart_in_place_factor_then_solve), and so is it for "
+             "the separate-storage Doolittle pair (C04_doolittle_factor_then_solve). Tie: real "
              "LinearSolver/LinearSolverInPlace templates over Z_p vs extracted model, x per block, same case space as C03 "
              "with random right-hand sides, row-major and grouped dense vectors, padding rows holding garbage. Oracle: "
              "A*x == b over Z_p on the implementation.",
